@@ -201,6 +201,87 @@ theorem read_add_read (sm : Nat → Option (Smoother K)) (nE : Nat) (A B : Arr K
 theorem old_add_keeps_stale_cache (sm : Nat → Option (Smoother K)) (nE : Nat) (A B : Arr K) :
     observe sm nE ([Op.read, Op.add B, Op.read].foldl (stepOld sm nE) ⟨A, none⟩) = dataSmooth sm nE A := rfl
 
+/-! ## several live results: derived results and hidden state -/
+
+/-- every operation keeps every live result consistent: reading memoises the right value, the in-place `add`
+    forgets it, and a derived result (`*`, `/`, `mul_array`, `+`, `-`, `transform`, loaded copy — anything built by
+    the constructor from the data of existing results) starts without a memoised value -/
+theorem hstep_ok (h : List (Obj K)) (op : HOp K) (hok : ∀ o ∈ h, ObjOk o) : ∀ o ∈ hstep h op, ObjOk o := by
+  intro o ho
+  cases op with
+  | read i =>
+    rcases mem_updAt _ _ _ _ ho with h1 | ⟨a, ha, rfl⟩
+    · exact hok o h1
+    · intro c hc
+      simp only [Option.some.injEq] at hc
+      subst hc
+      unfold Obj.observe
+      cases hs : a.cache with
+      | none => rfl
+      | some c' => exact hok a ha c' hs
+  | addIn i B =>
+    rcases mem_updAt _ _ _ _ ho with h1 | ⟨a, _, rfl⟩
+    · exact hok o h1
+    · intro c hc; simp at hc
+  | new mk =>
+    simp only [hstep, List.mem_append, List.mem_singleton] at ho
+    rcases ho with h1 | rfl
+    · exact hok o h1
+    · intro c hc; simp at hc
+
+/-- T8 (any history, any number of live results).  Starting from fresh results, after ANY interleaving of reads,
+    in-place adds and derivations of new results from old ones, EVERY live result's `dataSmooth` is the smoothing
+    of its own current data with its own smoothers. -/
+theorem heap_after_history (h0 : List (Obj K)) (hfresh : ∀ o ∈ h0, o.cache = none) (ops : List (HOp K)) :
+    ∀ o ∈ hrun h0 ops, o.observe = dataSmooth o.sm o.nE o.data := by
+  have hinv : ∀ (ops : List (HOp K)) (h : List (Obj K)), (∀ o ∈ h, ObjOk o) → ∀ o ∈ hrun h ops, ObjOk o := by
+    intro ops
+    induction ops with
+    | nil => intro h hh; exact hh
+    | cons op ops ih => intro h hh; exact ih _ (hstep_ok h op hh)
+  intro o ho
+  have hok := hinv ops h0 (fun o ho c hc => by rw [hfresh o ho] at hc; cases hc) o ho
+  unfold Obj.observe
+  cases hs : o.cache with
+  | none => rfl
+  | some c => exact hok c hs
+
+/-- the shortcut 'product inherits parent.dataSmooth × factor' IS sound for a factor that does not vary along any
+    smoothed axis — here: a scalar -/
+theorem prefill_scalar_ok (o : Obj K) (c : K) (hok : ObjOk o) : ObjOk (mulArrPrefilled o (fun _ => c)) := by
+  intro d hd
+  unfold mulArrPrefilled at hd ⊢
+  cases hs : o.cache with
+  | none => rw [hs] at hd; cases hd
+  | some c0 =>
+    rw [hs] at hd
+    simp only [Option.some.injEq] at hd
+    subst hd
+    have h1 := hok c0 hs
+    have h2 := dataSmooth_linear o.sm o.nE o.data (fun _ => 0) c 0
+    simp only [mul_zero, add_zero, zero_mul] at h2
+    funext x
+    simp only
+    rw [h1]
+    have := congrFun h2 x
+    simp only [mul_comm c] at this
+    exact this.symm
+
+/-- … and it is UNSOUND for `mul_array` with an array that varies along a smoothed energy axis (what the calculators
+    do with `Efermi`): smoothing does not commute with multiplication by a non-constant array.  Two energies,
+    kernel (1,2,1), data (1,0), factor (1,2): the inherited value is (2/3, 2/3), the smoothed product (2/3, 1/3). -/
+theorem prefill_array_breaks :
+    let s : Option (Smoother Rat) := some (mkSmoother 2 1 [1, 2, 1])
+    let parent : Obj Rat := ⟨fun _ => s, 1, arrOfList [2] [1, 0], none⟩
+    let looked := (hstep [parent] (.read 0)).getD 0 parent
+    let child := mulArrPrefilled looked (arrOfList [2] [1, 2])
+    listOfArr [2] child.observe = [2/3, 2/3] ∧
+    listOfArr [2] (dataSmooth child.sm child.nE child.data) = [2/3, 1/3] ∧
+    -- the same product derived through the constructor (repaired / original code) is right
+    listOfArr [2] (((hrun [parent] [.read 0, .new (fun h => mulArr (h.getD 0 parent) (arrOfList [2] [1, 2]))]).getD 1
+      parent).observe) = [2/3, 1/3] := by
+  decide +kernel
+
 /-! ## the defect that was repaired (finding F1) -/
 
 /-- the original loop returns the axis-0 smoother applied to the raw data, whatever the other smoothers are -/
